@@ -9,6 +9,7 @@ import (
 	"fmt"
 	"go/ast"
 	"go/token"
+	"strings"
 )
 
 func isAssignTo(s ast.Stmt, target string) (ast.Expr, bool) {
@@ -140,9 +141,13 @@ func extractAssign(k *ktr, fd *ast.FuncDecl) (string, error) {
 		}
 		return true
 	})
-	if len(found) != k.spec.Occ+1 {
+	want := k.spec.Total
+	if want == 0 {
+		want = k.spec.Occ + 1
+	}
+	if len(found) != want {
 		return "", fmt.Errorf("kernel %s: %s.%s contains %d assignment(s) to %s, expected exactly %d",
-			k.spec.Name, k.spec.Recv, k.spec.Func, len(found), k.spec.Target, k.spec.Occ+1)
+			k.spec.Name, k.spec.Recv, k.spec.Func, len(found), k.spec.Target, want)
 	}
 	t, ty, err := k.expr(found[k.spec.Occ])
 	if err != nil {
@@ -178,4 +183,21 @@ func extractGuard(k *ktr, fd *ast.FuncDecl) (string, error) {
 		return "", fmt.Errorf("kernel %s: the guard of %s has an init statement or an else branch", k.spec.Name, k.spec.Target)
 	}
 	return k.cond(found[0].Cond)
+}
+
+
+// extractCallArgs: every call `Target(args…)` in the function, in source order, each as the list of its normalised argument texts.
+func extractCallArgs(k *ktr, fd *ast.FuncDecl) (string, error) {
+	var calls []string
+	ast.Inspect(fd.Body, func(n ast.Node) bool {
+		if c, ok := n.(*ast.CallExpr); ok && kNormExpr(c.Fun) == k.spec.Target {
+			var a []string
+			for _, x := range c.Args {
+				a = append(a, fmt.Sprintf("%q", kNormExpr(x)))
+			}
+			calls = append(calls, "["+strings.Join(a, ", ")+"]")
+		}
+		return true
+	})
+	return "[" + strings.Join(calls, ", ") + "]", nil
 }
